@@ -37,6 +37,7 @@ func main() {
 	debugLocks := flag.String("debug-locks", "", "print lockset call sites of the named function and exit")
 	list := flag.Bool("list", false, "print the registered properties with their meta data as JSON and exit")
 	selftest := flag.Bool("selftest", false, "run the checker on its seeded-fault fixtures")
+	dumpFns := flag.Bool("dump-functions", false, "print the JSON list of the repository's functions (reference list for the helper-inlined view) and exit")
 	flag.Parse()
 
 	if *tier == "" {
@@ -83,6 +84,16 @@ func main() {
 	if *selftest {
 		os.Exit(runSelfTest(*verif))
 	}
+	if *dumpFns {
+		l, err := dumpFunctions(*repo)
+		if err != nil {
+			fmt.Fprintln(os.Stderr, err)
+			os.Exit(2)
+		}
+		b, _ := json.MarshalIndent(l, "", " ")
+		fmt.Println(string(b))
+		os.Exit(0)
+	}
 	var ids []string
 	if *prop == "all" {
 		for id := range registry {
@@ -118,8 +129,9 @@ func main() {
 		os.Exit(0)
 	}
 	exit := 0
+	fb := &fallback{repo: *repo, verif: *verif}
 	for _, id := range ids {
-		code := runOne(p, id, *tier, *out, known, floors, seed, t0, replayRule, replayConstruct)
+		code := runOne(p, fb, id, *tier, *out, known, floors, seed, t0, replayRule, replayConstruct)
 		if code == 1 || (code == 2 && exit == 0) {
 			if exit != 1 {
 				exit = code
@@ -130,15 +142,125 @@ func main() {
 	os.Exit(exit)
 }
 
-func runOne(p *Prog, id, tier, verif string, known *KnownFile, floors Floors, seed int, t0 time.Time, replayRule, replayConstruct string) (code int) {
-	c := newCtx(p, id, tier)
+// fallback lazily builds the helper-inlined view of the repository (inlineview.go).
+type fallback struct {
+	repo, verif string
+	tried       bool
+	prog        *Prog
+	err         error
+}
+
+func (fb *fallback) get() *Prog {
+	if fb.tried {
+		return fb.prog
+	}
+	fb.tried = true
+	knownFns, err := loadKnownFunctions(filepath.Join(fb.verif, "checker", "expect_functions.json"))
+	if err != nil {
+		fb.err = err
+		return nil
+	}
+	overlay, steps, err := buildInlinedOverlay(fb.repo, knownFns, 40)
+	if err != nil {
+		fb.err = err
+		return nil
+	}
+	if len(steps) == 0 {
+		return nil
+	}
+	if d := os.Getenv("SFCHECK_DUMP_VIEW"); d != "" {
+		for name, content := range overlay {
+			rel, _ := filepath.Rel(fb.repo, name)
+			dst := filepath.Join(d, rel)
+			os.MkdirAll(filepath.Dir(dst), 0o755)
+			os.WriteFile(dst, content, 0o644)
+		}
+	}
+	saved := theProg
+	p2, err := loadProgOverlay(fb.repo, overlay)
+	theProg = saved
+	if err != nil {
+		fb.err = err
+		return nil
+	}
+	p2.InlineSteps = steps
+	fb.prog = p2
+	return p2
+}
+
+func loadKnownFunctions(path string) (map[string]bool, error) {
+	b, err := os.ReadFile(path)
+	if err != nil {
+		return nil, err
+	}
+	var l []string
+	if err := json.Unmarshal(b, &l); err != nil {
+		return nil, err
+	}
+	m := map[string]bool{}
+	for _, n := range l {
+		m[n] = true
+	}
+	return m, nil
+}
+
+func runRules(p *Prog, id, tier string) (c *Ctx, panicked interface{}, stack []byte) {
+	theProg = p
+	resetInterpMemo()
+	c = newCtx(p, id, tier)
 	defer func() {
 		if r := recover(); r != nil {
-			fmt.Printf("CHECK-BROKEN property=%s: analyser panic: %v\n%s\n", id, r, debug.Stack())
-			code = 2
+			panicked, stack = r, debug.Stack()
 		}
 	}()
 	registry[id].run(c)
+	return c, nil, nil
+}
+
+func runOne(p *Prog, fb *fallback, id, tier, verif string, known *KnownFile, floors Floors, seed int, t0 time.Time, replayRule, replayConstruct string) (code int) {
+	c, pan, stack := runRules(p, id, tier)
+	if pan != nil {
+		fmt.Printf("CHECK-BROKEN property=%s: analyser panic: %v\n%s\n", id, pan, stack)
+		return 2
+	}
+	if v := c.verdict(known, floors); v != 0 {
+		// Not a pass on the tree as written. If the tree contains functions that are not on the
+		// reference list, judge the equivalent program in which they are inlined into their callers.
+		if p2 := fb.get(); p2 != nil {
+			c2, pan2, _ := runRules(p2, id, tier)
+			theProg = p
+			resetInterpMemo()
+			if pan2 == nil {
+				v2 := c2.verdict(known, floors)
+				if v2 != 0 && !(v == 2 && v2 == 1) {
+					fmt.Printf("   note: %s does not pass on the helper-inlined view either (%d transformation(s)); reporting the tree as written. On the view:\n", id, len(p2.InlineSteps))
+					for _, st := range p2.InlineSteps {
+						fmt.Printf("   note:   %s %s into %s (%s)\n", st.Kind, st.Callee, st.Caller, p2.relFile(st.File))
+					}
+					n := 0
+					for _, o := range c2.obls {
+						if (o.st == Violation || o.st == Undecided) && n < 6 {
+							fmt.Printf("   note:   %s [%s] %s @~%s\n", o.Status, o.Rule, o.Construct, o.Pos)
+							n++
+						}
+					}
+				}
+				switch {
+				case v2 == 0:
+					c = c2 // the alarm was an artefact of where the statements live
+				case v == 2 && v2 == 1:
+					c = c2 // the moved code is decided on the inlined view, and it is a violation
+					for _, o := range c.obls {
+						if o.Pos != "-" && o.Pos != "" {
+							o.Pos = "~" + o.Pos
+						}
+					}
+				}
+			}
+		} else if fb.err != nil {
+			fmt.Printf("   note: helper-inlined view not available: %v\n", fb.err)
+		}
+	}
 	code = c.finish(verif, registry[id].meta, known, floors, seed, t0)
 	if replayRule != "" {
 		fmt.Printf("-- replay of [%s] %s:\n", replayRule, replayConstruct)
